@@ -609,9 +609,12 @@ def cause_key(ctx, plain, sc, c, key):
         if want_false:
             return r.rc == 0 and exists
         return (not exists) and engines.classify_nanoc_failure(r) == "shadow"
-    try:
-        sig, small = sweep.reduced_key(c.prog, still)
-    except Exception:
-        sig, small = "unreduced", None
+    sig, small = "not-reduced", None
+    if sweep._REDUCTIONS[0] < sweep.MAX_REDUCTIONS:
+        # only the first few disagreements of a run are reduced (a broken gate makes hundreds of programs fail)
+        try:
+            sig, small = sweep.reduced_key(c.prog, still)
+        except Exception:
+            sig, small = "not-reduced", None
     cls = ",".join(sorted(set("%s/%s" % (x[0], x[3]) for x in c.intent["classes"]))) or "-"
     return "%s|%s|%s" % (key, cls, sig), small
